@@ -1331,3 +1331,29 @@ pub fn replay_c10_history_nonces(_shard: &Shard, case: &Value) -> CheckResult {
 
 #[allow(dead_code)]
 fn _unused(_: WriteEvent, _: &dyn EventLog<WriteEvent, Error = sos_backend::Error>) {}
+
+
+/// `download_file` with a retry for one environment effect: age derives the largest scrypt work
+/// factor it accepts from a ~1 ms benchmark taken at decryption time (not pinned by the SDK), so
+/// on a loaded machine a blob encrypted a moment ago can be refused with "Excessive work
+/// parameter". Retried with back-off (about 10 s in total) before the error is returned.
+pub async fn download_file_retry<A>(account: &A, folder: &VaultId, id: &sos_core::SecretId, name: &sos_core::ExternalFileName) -> Result<Vec<u8>, String>
+where
+    A: Account + Send + Sync,
+    <A as Account>::Error: std::fmt::Display,
+{
+    let mut last = String::new();
+    for attempt in 0..12u64 {
+        match account.download_file(folder, id, name).await {
+            Ok(b) => return Ok(b),
+            Err(e) => {
+                last = e.to_string();
+                if !last.contains("Excessive work") {
+                    return Err(last);
+                }
+                tokio::time::sleep(std::time::Duration::from_millis(150 * (attempt + 1))).await;
+            }
+        }
+    }
+    Err(last)
+}
